@@ -4,7 +4,7 @@
 # behaviour-preserving refactoring (-> benign/<prop>-r4; every check whose cone contains a touched file's package must stay quiet)
 cd "$(dirname "$0")/.." || exit 2
 P="$1"; shift
-SRC=/tmp/seed4_$P/SEED
+R=${ROUND:-4}; SRC=/tmp/seed${R}_$P/SEED
 PK1=$(sed -n 's/^`\{0,1\}demo1: *`\{0,1\}\([a-zA-Z0-9_/]*\).*/\1/p' $SRC/NOTES.md | head -1)
 PK2=$(sed -n 's/^`\{0,1\}demo2: *`\{0,1\}\([a-zA-Z0-9_/]*\).*/\1/p' $SRC/NOTES.md | head -1)
 [ -n "$PK1" ] && [ -n "$PK2" ] || { echo "cannot read demo dirs from NOTES.md: '$PK1' '$PK2'"; exit 1; }
@@ -14,7 +14,7 @@ cp $SRC/patch1.diff $SRC/patch$n.diff; cp $SRC/demo1_test.go $SRC/demo${n}_test.
 cp $SRC/patch2.diff $SRC/patch$m.diff; cp $SRC/demo2_test.go $SRC/demo${m}_test.go
 SEED_SRC=$SRC scripts/intake_seed.sh $P $n $PK1 "$@"
 SEED_SRC=$SRC scripts/intake_seed.sh $P $m $PK2 "$@"
-mkdir -p seeded/notes benign/$P-r4; cp $SRC/NOTES.md seeded/notes/$P-round4-NOTES.md
-cp $SRC/patch3.diff benign/$P-r4/patch.diff
-echo "$P $*" > benign/$P-r4/props
-scripts/benign.sh $P-r4
+mkdir -p seeded/notes benign/$P-r$R; cp $SRC/NOTES.md seeded/notes/$P-round$R-NOTES.md
+cp $SRC/patch3.diff benign/$P-r$R/patch.diff
+echo "$P $*" > benign/$P-r$R/props
+scripts/benign.sh $P-r$R
